@@ -178,6 +178,26 @@ CLAIMED = {
             '2); covariance/shape/kron/fluxfrac properties not covered; row '
             'reordering is covered by the C08 check',
             TECH),
+    'C11': ('3/C11',
+            'Unmodified Background2D with symbolic-aware estimator/'
+            'interpolator stubs passed through the public arguments, on '
+            'symbolic data (NaN-extended) with solver-chosen mask and '
+            'coverage bits, symbolic exclude_percentile and fill_value, '
+            'shapes 4x4..5x5 with dividing / non-dividing / full-image '
+            'boxes and both edge methods: every non-excluded mesh value is '
+            'the estimator of exactly the unmasked, non-coverage, finite '
+            'pixels of its (padded) box, npixels_mesh is their count, maps '
+            'have the input shape, equal fill_value exactly on coverage '
+            'pixels and the mesh value elsewhere, inputs untouched. The '
+            'clauses that depend on the real estimators/interpolators '
+            '(finite, mask-blind, constant reproduction, shift/scale '
+            'equivariance, zoom within mesh range) are checked only as a '
+            'concrete metamorphic family with tolerances over '
+            'solver-enumerated configurations.',
+            'stub estimators (mean, max-min), block-replication '
+            'interpolator, sigma_clip=None in the symbolic part; IDW-filled '
+            'values of excluded meshes not claimed',
+            TECH),
 }
 
 NOT_YET = {}
